@@ -12,7 +12,7 @@ def run(run):
     for name in ('fast_generate_from', 'fcbo_dual', 'iterconcepts', 'get_concepts'):
         if not hasattr(algorithms, name):
             raise ApiBroken('concepts.algorithms.%s is gone' % name)
-    for tab, pc in lat.contexts(run, exh_quick=9, rand_quick=500, wide_quick=40, exh_thorough=12, nmax=10, mmax=10):
+    for tab, pc in lat.contexts(run, exh_quick=10, rand_quick=600, wide_quick=40, exh_thorough=14, nmax=10, mmax=10):
         if min(pc.n, pc.m) > 12:
             continue
         extra = {'objects': pc.objects, 'properties': pc.properties, 'bools': pc.bools}
